@@ -84,7 +84,7 @@ package bcl
 //@   loop 2 invariant filter_first: len(blocks) > 0 ==> (exists i int :: 0 <= i && i <= rangeindex && vm.result[i] == blocks[0] && (forall k int :: 0 <= k && k < i ==> vm.result[k].Type != blockType))
 //@   loop 2 invariant filter_last: len(blocks) > 0 ==> (exists m int :: 0 <= m && m <= rangeindex && vm.result[m] == blocks[len(blocks)-1] && vm.result[m].Type == blockType && (forall k int :: m < k && k <= rangeindex ==> vm.result[k].Type != blockType))
 //@   loop 2 invariant results_kept: forall i int :: 0 <= i && i < len(vm.result) ==> vm.result[i] == prev(vm.result[i])
-//@   loop 2 invariant blocks_fresh: isnew(blocks) && arr(blocks) != arr(vm.result)
+//@   loop 2 invariant blocks_fresh: isnew(blocks) && arr(blocks) != arr(vm.result) && off(blocks) == 0
 //@   loop 2 invariant outer_state_kept: vm.tos == prev(vm.tos) && vm.blockTos == prev(vm.blockTos) && vm.blockStack == prev(vm.blockStack) && vm.result == prev(vm.result) && vm.prog == old(vm.prog) && !overflow && instr == opBIND && vm.prog.linePos != nil
 
 // pure stack read
